@@ -2,6 +2,10 @@
 //! Only CP01..CP05 selected; dialect × per-kind policy × ignore_words × (corpus | case scrambles).
 //! * direct: fix_string = source up to ASCII case; lint(fix) reports no CP violation; fix(fix) = fix;
 //!   quoted identifiers / string literals / comments byte-identical.
+//! * every direct observation is made through each public way of fixing a text, not only `lint_string`:
+//!   `lint_paths` on a file and on a directory (the code path of `sqruff fix <file|dir>`),
+//!   `render_string` + `lint_rendered`, `lint_string_wrapped`; fix, lint-of-fix and fix-of-fix all go
+//!   through the same entry point.
 //! * group `call`: every recorded call of `handle_segment` (hook in cp01.rs: raw, policy, policy
 //!   list name, memory before/after, result) replayed on the Gallina `handle`.
 use std::collections::BTreeSet;
@@ -31,6 +35,54 @@ struct Item {
     dialect: String,
     config: String,
     sql: String,
+    /// entry points exercised besides `lint_string`
+    entries: Vec<Entry>,
+}
+
+/// The public ways of linting / fixing one text (`crates/lib/src/core/linter/core.rs`).
+#[derive(Clone, Copy, PartialEq, Eq, Debug)]
+enum Entry {
+    /// `Linter::lint_string`
+    Str,
+    /// `Linter::lint_paths(vec![file])` — `sqruff fix file.sql`
+    PathsFile,
+    /// `Linter::lint_paths(vec![dir])`, the directory holds a second file (both go through the rayon pool)
+    PathsDir,
+    /// `Linter::render_string` + `Linter::lint_rendered`
+    Rendered,
+    /// `Linter::lint_string_wrapped`
+    Wrapped,
+}
+const ALT_ENTRIES: [Entry; 4] = [Entry::PathsFile, Entry::PathsDir, Entry::Rendered, Entry::Wrapped];
+impl Entry {
+    fn name(self) -> &'static str {
+        match self {
+            Entry::Str => "lint_string",
+            Entry::PathsFile => "lint_paths-file",
+            Entry::PathsDir => "lint_paths-dir",
+            Entry::Rendered => "render_string+lint_rendered",
+            Entry::Wrapped => "lint_string_wrapped",
+        }
+    }
+    fn from_name(s: &str) -> Option<Entry> {
+        std::iter::once(Entry::Str).chain(ALT_ENTRIES).find(|e| e.name() == s)
+    }
+}
+
+/// Per-thread scratch directory for the path based entry points.
+struct Scratch {
+    dir: std::path::PathBuf,
+}
+fn scratch_base() -> std::path::PathBuf {
+    std::env::temp_dir().join(format!("sqv-c16-{}", std::process::id()))
+}
+impl Scratch {
+    fn new() -> Scratch {
+        static N: std::sync::atomic::AtomicUsize = std::sync::atomic::AtomicUsize::new(0);
+        let dir = scratch_base().join(format!("t{}", N.fetch_add(1, std::sync::atomic::Ordering::SeqCst)));
+        std::fs::create_dir_all(dir.join("d")).expect("scratch dir");
+        Scratch { dir }
+    }
 }
 
 fn mk_config(dialect: &str, pol: &[&str; 5], ignore: &[Option<String>; 5]) -> String {
@@ -202,101 +254,182 @@ fn g_policy(p: &str) -> String {
     }
 }
 
-fn lint_fix(linter: &Linter, sql: &str) -> Result<(String, Vec<(String, usize, usize)>), String> {
-    catch(|| {
-        let f = linter.lint_string(sql, None, true);
-        let vs: Vec<(String, usize, usize)> = f.violations.iter().filter_map(|v| v.rule.as_ref().map(|r| (r.code.to_string(), v.line_no, v.line_pos))).collect();
-        (f.fix_string(), vs)
+type Viol = (String, usize, usize);
+
+fn viols(f: &sqruff_lib::core::linter::linted_file::LintedFile) -> Vec<Viol> {
+    f.violations.iter().filter_map(|v| v.rule.as_ref().map(|r| (r.code.to_string(), v.line_no, v.line_pos))).collect()
+}
+
+/// Lint (`fix = false`) or fix (`fix = true`) `sql` through the public entry point `entry`:
+/// the resulting text (`fix_string`) and the rule violations reported.
+fn run_entry(entry: Entry, linter: &mut Linter, sc: &Scratch, sql: &str, fix: bool) -> Result<(String, Vec<Viol>), String> {
+    let never = |_: &std::path::Path| false;
+    catch(move || match entry {
+        Entry::Str => {
+            let f = linter.lint_string(sql, None, fix);
+            let vs = viols(&f);
+            (f.fix_string(), vs)
+        }
+        Entry::Wrapped => {
+            let r = linter.lint_string_wrapped(sql, fix);
+            let f = r.paths.into_iter().flat_map(|d| d.files.into_iter()).next().expect("lint_string_wrapped returned no file");
+            let vs = viols(&f);
+            (f.fix_string(), vs)
+        }
+        Entry::Rendered => {
+            let rendered = linter.render_string(sql, "<string>".to_string(), linter.config()).expect("render_string");
+            let f = linter.lint_rendered(rendered, fix);
+            let vs = viols(&f);
+            (f.fix_string(), vs)
+        }
+        Entry::PathsFile => {
+            let path = sc.dir.join("q.sql");
+            std::fs::write(&path, sql).expect("write scratch file");
+            let r = linter.lint_paths(vec![path], fix, &never);
+            let f = r.paths.into_iter().flat_map(|d| d.files.into_iter()).next().expect("lint_paths returned no file");
+            let vs = viols(&f);
+            (f.fix_string(), vs)
+        }
+        Entry::PathsDir => {
+            // two files in one directory argument: both are linted by the same Linter on the rayon pool
+            let dir = sc.dir.join("d");
+            std::fs::write(dir.join("main.sql"), sql).expect("write scratch file");
+            std::fs::write(dir.join("other.sql"), sql.to_ascii_uppercase()).expect("write scratch file");
+            let r = linter.lint_paths(vec![dir], fix, &never);
+            let f = r.paths.into_iter().flat_map(|d| d.files.into_iter()).find(|f| f.path.ends_with("main.sql")).expect("lint_paths(dir) did not return main.sql");
+            let vs = viols(&f);
+            (f.fix_string(), vs)
+        }
     })
 }
 
-fn run_one(it: &Item, out: &mut Buf) {
+/// Source slices of the leaves the property protects (comments, anything holding a quote character).
+fn protected_slices(linter: &Linter, sql: &str) -> Option<Vec<(std::ops::Range<usize>, String)>> {
+    catch(|| {
+        let tables = Tables::default();
+        let parsed = linter.parse_string(&tables, sql, None).ok()?;
+        let tree = parsed.tree?;
+        let mut v = vec![];
+        for seg in tree.get_raw_segments() {
+            let raw = seg.raw();
+            let protected = seg.is_comment() || raw.contains('\'') || raw.contains('"') || raw.contains('`');
+            if !protected {
+                continue;
+            }
+            if let Some(pm) = seg.get_position_marker() {
+                v.push((pm.source_slice.clone(), raw.to_string()));
+            }
+        }
+        Some(v)
+    })
+    .ok()
+    .flatten()
+}
+
+fn run_one(it: &Item, sc: &Scratch, out: &mut Buf) {
     out.count("files", 1);
-    let input = json!({"dialect": it.dialect, "config": it.config, "sql": it.sql});
-    let key_of = |what: &str| format!("c16-{}:{}:{:08x}", what, it.dialect, fnv(&format!("{}|{}", it.config, it.sql)));
     if it.sql.contains('\r') {
         out.count("skipped_cr", 1);
         return;
     }
-    let linter = match catch(|| Linter::new(FluffConfig::from_source(&it.config, None), None, None, true)) {
+    let mut linter = match catch(|| Linter::new(FluffConfig::from_source(&it.config, None), None, None, true)) {
         Ok(l) => l,
         Err(_) => {
             out.count("config_rejected", 1);
             return;
         }
     };
-    // ---- first fix, with the recorder on
+    let mut protected: Option<Option<Vec<(std::ops::Range<usize>, String)>>> = None;
+    let mut reference: Option<String> = None;
+    for entry in std::iter::once(Entry::Str).chain(it.entries.iter().copied()) {
+        // `@entry` marks the observations made through another entry point than lint_string
+        let at = if entry == Entry::Str { String::new() } else { format!("@{}", entry.name()) };
+        out.count(&format!("entry_runs_{}", entry.name()), 1);
+        let (fixed, log) = match observe(it, entry, &at, &mut linter, sc, &mut protected, out) {
+            Some(x) => x,
+            None => continue,
+        };
+        match &reference {
+            None if entry == Entry::Str => reference = Some(fixed),
+            Some(r) if *r != fixed => out.count("entry_fix_text_differs_from_lint_string", 1),
+            _ => {}
+        }
+        correspond(it, entry, &log, out);
+    }
+}
+
+/// The property observed through one entry point: fix, then lint and fix the result again through the same entry point.
+fn observe(it: &Item, entry: Entry, at: &str, linter: &mut Linter, sc: &Scratch, protected: &mut Option<Option<Vec<(std::ops::Range<usize>, String)>>>, out: &mut Buf) -> Option<(String, Vec<CapsCall>)> {
+    let input = json!({"dialect": it.dialect, "config": it.config, "sql": it.sql, "entry": entry.name()});
+    let key_of = |what: &str| format!("c16-{}{}:{}:{:08x}", what, at, it.dialect, fnv(&format!("{}|{}", it.config, it.sql)));
+    // ---- first fix, with the recorder on (it only sees calls made on this thread: not those of lint_paths' pool)
     CAPS_LOG.with(|l| *l.borrow_mut() = Some(Vec::new()));
-    let r1 = lint_fix(&linter, &it.sql);
+    let r1 = run_entry(entry, linter, sc, &it.sql, true);
     let log: Vec<CapsCall> = CAPS_LOG.with(|l| l.borrow_mut().take()).unwrap_or_default();
     let (fixed, vs1) = match r1 {
         Ok(x) => x,
         Err(msg) => {
-            out.count("panics", 1);
+            out.count(&format!("panics{}", at), 1);
             let _ = msg; // crashes are C03's subject
-            return;
+            return None;
         }
     };
     out.count("handle_segment_calls", log.len());
     if fixed != it.sql {
-        out.count("files_changed_by_fix", 1);
+        out.count(&format!("files_changed_by_fix{}", at), 1);
     }
     if !vs1.is_empty() {
-        out.count("files_with_cp_violations", 1);
+        out.count(&format!("files_with_cp_violations{}", at), 1);
     }
     // ---- direct observations
     let case_only = ascii_lower(&fixed) == ascii_lower(&it.sql);
     out.direct(
-        "fix-changes-only-ascii-case",
+        &format!("fix-changes-only-ascii-case{}", at),
         case_only,
         &key_of("case"),
-        &format!("fix_string differs from the source by more than ASCII letter case (first difference at byte {:?})", ascii_lower(&fixed).iter().zip(ascii_lower(&it.sql).iter()).position(|(a, b)| a != b)),
+        &format!(
+            "{}: fix_string differs from the source by more than ASCII letter case (first difference at byte {:?}); fixed text: {:?}",
+            entry.name(),
+            ascii_lower(&fixed).iter().zip(ascii_lower(&it.sql).iter()).position(|(a, b)| a != b),
+            trunc(&fixed, 300)
+        ),
         input.clone(),
     );
-    match catch(|| linter.lint_string(&fixed, None, false)) {
-        Ok(f2) => {
-            let left: Vec<(String, usize, usize)> = f2.violations.iter().filter_map(|v| v.rule.as_ref().map(|r| (r.code.to_string(), v.line_no, v.line_pos))).filter(|v| v.0.starts_with("CP")).collect();
-            out.direct("lint-of-fix-is-clean", left.is_empty(), &key_of("relint"), &format!("linting the fixed text still reports {:?}; fixed text: {:?}", left, trunc(&fixed, 300)), input.clone());
+    match run_entry(entry, linter, sc, &fixed, false) {
+        Ok((_, vs)) => {
+            let left: Vec<Viol> = vs.into_iter().filter(|v| v.0.starts_with("CP")).collect();
+            out.direct(&format!("lint-of-fix-is-clean{}", at), left.is_empty(), &key_of("relint"), &format!("{}: linting the fixed text still reports {:?}; fixed text: {:?}", entry.name(), left, trunc(&fixed, 300)), input.clone());
         }
-        Err(_) => out.count("relint_panicked", 1),
+        Err(_) => out.count(&format!("relint_panicked{}", at), 1),
     }
-    match lint_fix(&linter, &fixed) {
-        Ok((fixed2, _)) => out.direct("fix-is-idempotent", fixed2 == fixed, &key_of("refix"), &format!("fixing the fixed text changes it again: {:?} -> {:?}", trunc(&fixed, 200), trunc(&fixed2, 200)), input.clone()),
-        Err(_) => out.count("refix_panicked", 1),
+    match run_entry(entry, linter, sc, &fixed, true) {
+        Ok((fixed2, _)) => out.direct(&format!("fix-is-idempotent{}", at), fixed2 == fixed, &key_of("refix"), &format!("{}: fixing the fixed text changes it again: {:?} -> {:?}", entry.name(), trunc(&fixed, 200), trunc(&fixed2, 200)), input.clone()),
+        Err(_) => out.count(&format!("refix_panicked{}", at), 1),
     }
     if case_only {
         // quoted identifiers, string literals, comments: byte-identical at the same offsets
-        let r = catch(|| {
-            let tables = Tables::default();
-            let parsed = linter.parse_string(&tables, &it.sql, None).ok()?;
-            let tree = parsed.tree?;
+        let prot = protected.get_or_insert_with(|| protected_slices(linter, &it.sql));
+        if let Some(prot) = prot {
             let mut bad = vec![];
-            let mut n = 0usize;
-            for seg in tree.get_raw_segments() {
-                let raw = seg.raw();
-                let protected = seg.is_comment() || raw.contains('\'') || raw.contains('"') || raw.contains('`');
-                if !protected {
-                    continue;
-                }
-                n += 1;
-                if let Some(pm) = seg.get_position_marker() {
-                    let sl = pm.source_slice.clone();
-                    if sl.end <= it.sql.len() && sl.end <= fixed.len() && it.sql.as_bytes()[sl.clone()] != fixed.as_bytes()[sl.clone()] {
-                        bad.push(raw.to_string());
-                    }
+            for (sl, raw) in prot.iter() {
+                if sl.end <= it.sql.len() && sl.end <= fixed.len() && it.sql.as_bytes()[sl.clone()] != fixed.as_bytes()[sl.clone()] {
+                    bad.push(raw.clone());
                 }
             }
-            Some((n, bad))
-        });
-        if let Ok(Some((n, bad))) = r {
-            out.count("protected_leaves_checked", n);
-            out.direct("quoted-and-comments-untouched", bad.is_empty(), &key_of("protected"), &format!("quoted identifier / literal / comment changed by the fix: {:?}", bad), input.clone());
+            out.count("protected_leaves_checked", prot.len());
+            out.direct(&format!("quoted-and-comments-untouched{}", at), bad.is_empty(), &key_of("protected"), &format!("{}: quoted identifier / literal / comment changed by the fix: {:?}", entry.name(), bad), input.clone());
         }
     }
+    Some((fixed, log))
+}
+
+/// Correspondence: every recorded `handle_segment` call of the first fix replayed on the model.
+fn correspond(it: &Item, entry: Entry, log: &[CapsCall], out: &mut Buf) {
+    let input = json!({"dialect": it.dialect, "config": it.config, "sql": it.sql, "entry": entry.name()});
     // ---- correspondence: every recorded call
     let mut seen = BTreeSet::new();
     let mut prev_after: Option<(Vec<&'static str>, Option<String>)> = None;
-    for c in &log {
+    for c in log {
         // memory threads from call to call within a crawl; a new crawl starts empty
         let fresh = c.refuted_before.is_empty() && c.latest_before.is_none();
         let threaded = fresh || prev_after.as_ref().is_some_and(|(r, l)| r == &c.refuted_before && l == &c.latest_before);
@@ -354,7 +487,13 @@ pub fn main(args: &Args) {
     if let Some(path) = args.flag("--replay-input") {
         let j: Value = serde_json::from_str(&std::fs::read_to_string(path).unwrap()).unwrap();
         let j = if j.get("input").is_some() { j["input"].clone() } else { j };
-        items.push(Item { cls: "replay", dialect: j["dialect"].as_str().unwrap_or("ansi").to_string(), config: j["config"].as_str().unwrap_or("").to_string(), sql: j["sql"].as_str().unwrap_or("").to_string() });
+        // a replay goes through the recorded entry point (all of them when none is recorded) besides lint_string
+        let entries: Vec<Entry> = match j["entry"].as_str().and_then(Entry::from_name) {
+            Some(Entry::Str) => vec![],
+            Some(e) => vec![e],
+            None => ALT_ENTRIES.to_vec(),
+        };
+        items.push(Item { cls: "replay", dialect: j["dialect"].as_str().unwrap_or("ansi").to_string(), config: j["config"].as_str().unwrap_or("").to_string(), sql: j["sql"].as_str().unwrap_or("").to_string(), entries });
     } else {
         let none: [Option<String>; 5] = Default::default();
         // hand-written statements × every uniform policy × a few dialects, plus mixed policies
@@ -362,10 +501,10 @@ pub fn main(args: &Args) {
             for k in 0..POLICIES.len() + 2 {
                 let pol = gen_policies(&mut rng, k);
                 for d in ["ansi", DIALECTS[(i + k) % DIALECTS.len()]] {
-                    items.push(Item { cls: "snippet", dialect: d.to_string(), config: mk_config(d, &pol, &none), sql: s.to_string() });
+                    items.push(Item { cls: "snippet", dialect: d.to_string(), config: mk_config(d, &pol, &none), sql: s.to_string(), entries: vec![] });
                 }
                 let ig = gen_ignore(&mut rng, s);
-                items.push(Item { cls: "snippet-ignore-words", dialect: "ansi".into(), config: mk_config("ansi", &pol, &ig), sql: s.to_string() });
+                items.push(Item { cls: "snippet-ignore-words", dialect: "ansi".into(), config: mk_config("ansi", &pol, &ig), sql: s.to_string(), entries: vec![] });
             }
         }
         let corpus = corpus();
@@ -380,7 +519,7 @@ pub fn main(args: &Args) {
             let k = rng.below(POLICIES.len() + 4);
             let pol = gen_policies(&mut rng, k);
             let ig = gen_ignore(&mut rng, &f.text);
-            items.push(Item { cls: "corpus", dialect: f.dialect.clone(), config: mk_config(&f.dialect, &pol, &ig), sql: f.text.clone() });
+            items.push(Item { cls: "corpus", dialect: f.dialect.clone(), config: mk_config(&f.dialect, &pol, &ig), sql: f.text.clone(), entries: vec![] });
         }
         for _ in 0..n_scr {
             let f = &corpus[rng.below(corpus.len())];
@@ -392,14 +531,19 @@ pub fn main(args: &Args) {
             let pol = gen_policies(&mut rng, k);
             let ig = gen_ignore(&mut rng, &sql);
             let d = if rng.chance(1, 6) { DIALECTS[rng.below(DIALECTS.len())].to_string() } else { f.dialect.clone() };
-            items.push(Item { cls, dialect: d.clone(), config: mk_config(&d, &pol, &ig), sql });
+            items.push(Item { cls, dialect: d.clone(), config: mk_config(&d, &pol, &ig), sql, entries: vec![] });
         }
     }
-    par_run(&mut out, &items, || (), |_, it, buf| {
-        let n0 = buf.lines.len();
-        run_one(it, buf);
-        let _ = n0;
+    if args.flag("--replay-input").is_none() {
+        // every input goes through every public entry point (lint_string first: it feeds the recorder)
+        for it in items.iter_mut() {
+            it.entries = ALT_ENTRIES.to_vec();
+        }
+    }
+    par_run(&mut out, &items, Scratch::new, |sc, it, buf| {
+        run_one(it, sc, buf);
         buf.count(&format!("items_{}", it.cls), 1);
     });
+    let _ = std::fs::remove_dir_all(scratch_base());
     out.finish();
 }
